@@ -92,14 +92,22 @@ class Package:
         self.ndjson = ndjson
         self.ok = False
         self.problem = None
+        self.style = {}        # spelling choices of the concretiser (wirelib.Concretiser), e.g. {"generics": "imported"}
 
     def write_model(self):
         os.makedirs(os.path.join(self.root, "model"), exist_ok=True)
-        c = wirelib.Concretiser()
+        c = wirelib.Concretiser(getattr(self, "style", None))
         ptxt = c.protocol(self.proto, [(s["name"], s["t"], s["stream"]) for s in self.steps])
         with open(os.path.join(self.root, "model", "model.yml"), "w") as f:
             f.write(c.model_text(ptxt))
+        imports = ""
+        if c.lib_defs:
+            os.makedirs(os.path.join(self.root, "lib"), exist_ok=True)
+            open(os.path.join(self.root, "lib", "_package.yml"), "w").write("namespace: Lib\n")
+            open(os.path.join(self.root, "lib", "lib.yml"), "w").write(c.lib_text())
+            imports = "imports:\n  - ../lib\n"
         with open(os.path.join(self.root, "model", "_package.yml"), "w") as f:
+            f.write(imports)
             f.write("namespace: %s\n"
                     "cpp:\n  sourcesOutputDir: ../cpp\n  generateHDF5: false\n  generateCMakeLists: false\n"
                     "  generateNDJson: %s\n  overrideArrayHeader: yardl_shim_ndarray.h\n"
@@ -122,8 +130,10 @@ class Package:
             self.problem = "cannot extract schema literal from generated protocols.py"
             return False
         import re
-        m = re.search(r"namespace ([A-Za-z0-9_]+) \{", open(os.path.join(self.root, "cpp", "protocols.h")).read())
-        self.ns_cpp = m.group(1) if m else self.ns_cpp
+        hp = os.path.join(self.root, "cpp", "protocols.h")
+        if os.path.exists(hp):
+            m = re.search(r"namespace ([A-Za-z0-9_]+) \{", open(hp).read())
+            self.ns_cpp = m.group(1) if m else self.ns_cpp
         return True
 
     def build_cpp(self, sanitize=False):
@@ -205,7 +215,7 @@ def prepare(pkgs, yardl, home, langs=("py", "cpp"), sanitize=False, notes=None):
     return [p for p in pkgs if p.ok], bad
 
 
-def leg(p, lang, infmt, outfmt, vals, tag, block=None, bufsize=1, mode="copy", inbytes=None):
+def leg(p, lang, infmt, outfmt, vals, tag, block=None, bufsize=1, mode="copy", inbytes=None, check_output=True):
     """Run one copy leg; returns dict(ok, msg, out)."""
     wd = os.path.join(p.root, "io")
     os.makedirs(wd, exist_ok=True)
@@ -233,6 +243,9 @@ def leg(p, lang, infmt, outfmt, vals, tag, block=None, bufsize=1, mode="copy", i
         res.update(ok=False, msg="no output written")
         return res
     res["outbytes"] = data
+    if not check_output:
+        res.update(ok=True, msg="")
+        return res
     if outfmt == "binary":
         ok, msg = p.check_binary(data, vals)
     else:
